@@ -42,7 +42,7 @@ NOTE = "Trusted base: the harness reference models under mc/refmodels and the or
 
 
 # modules that are finished, reviewed and silent on the unchanged tree (claimed in MANIFEST.json)
-READY = ["C01", "C02", "C03", "C04", "C05", "C06", "C07", "C08", "C09", "C12", "C13", "C14", "C15", "C16", "C17", "C18", "C19", "C20"]
+READY = ["C01", "C02", "C03", "C04", "C05", "C06", "C07", "C08", "C09", "C10", "C11", "C12", "C13", "C14", "C15", "C16", "C17", "C18", "C19", "C20"]
 
 
 def main():
